@@ -76,6 +76,21 @@ pub fn crc_vectors(out: &mut dyn Write, tier: &str, seed: u64) -> J {
         emit(crc_rec(&m), out);
         n += 1;
     }
+    // long messages (the remainder only depends on the polynomial, whatever way an implementation cuts the message up):
+    // lengths around the powers of two up to 64 KiB and beyond the period of x modulo the CRC-16 polynomial (32 767 bits)
+    let mut longs: Vec<usize> = vec![4095, 4096, 4097, 8191, 8192, 16382, 16383, 16384, 32767, 32768, 65535, 65536, 70001];
+    if quick {
+        longs = vec![4097, 8192, 16383, 16384, 32768, 65537];
+    }
+    for len in longs {
+        let m: Vec<u8> = (0..len).map(|_| rng.next() as u8).collect();
+        emit(crc_rec(&m), out);
+        n += 1;
+        let mut z = vec![0u8; len];
+        z[0] = 0x80;
+        emit(crc_rec(&z), out);
+        n += 1;
+    }
     // a record followed by its own CRC-16 and zero padding (the remainder is 0 from there on): every record length 0..=40
     // with 0..=16 padding bytes
     for len in 0..=40usize {
@@ -446,7 +461,8 @@ use embedded_sdmmc::LfnBuffer;
 
 fn lfn_rec(frags: &[[u16; 13]], size: usize) -> J {
     let r = catch_unwind(AssertUnwindSafe(|| {
-        let mut storage = vec![0u8; size];
+        // (the storage is the caller's and need not be clean: whatever it held must never show through)
+        let mut storage = vec![0xFFu8; size];
         let mut b = LfnBuffer::new(&mut storage);
         for f in frags {
             b.push(f);
@@ -485,6 +501,8 @@ pub fn lfn_vectors(out: &mut dyn Write, tier: &str, seed: u64) -> J {
         if all {
             sizes = (0..=(l + 2).min(780)).collect();
             sizes.push(780);
+            // a buffer of any size: far larger than any name (around the 16-bit limit, and well beyond it)
+            sizes.extend_from_slice(&[65535, 65536, 65537, 65536 + l.saturating_sub(1), 65536 + l, 131072, 1 << 20]);
         }
         sizes.sort();
         sizes.dedup();
